@@ -107,6 +107,7 @@ func main() {
 		readLong(rRead, per(sz.long), sz.big)
 		readHuge(rRead)
 		readGarbage(rRead, per(sz.garbage))
+		limitWhileWaiting(rRead, 3)
 	})
 	run("enc", func() {
 		encScripts(rEnc, per(sz.enc), per(sz.encX), per(sz.encBroken), sz.big)
